@@ -142,6 +142,15 @@ def _worker(args):
                     want = hashlib.scrypt(pw8, salt=s32, n=1 << lg, r=r_, p=p_, maxmem=1 << 30, dklen=ol)
                     if rc != 0 or out.raw != want:
                         fails.append(("crypto_pwhash_scrypt_ll/%s/N=2^%d/r=%d/p=%d/outlen=%d" % (tag, lg, r_, p_, ol), "ret %d" % rc))
+    # PBKDF2 block counters past one and two bytes: 4*r*p (the first PBKDF2) or outlen/32 (the second) blocks of HMAC-SHA-256 output
+    for lg, r_, p_, ol in ((1, 1, 63, 32), (1, 1, 64, 32), (1, 1, 65, 32), (1, 8, 2048, 32), (1, 1, 16385, 32), (1, 4099, 4, 40), (1, 1, 1, 8192), (1, 1, 1, 8193), (1, 1, 1, 32 * 65536 + 33), (2, 2, 1, 32 * 65536)):
+        n += 1
+        out = pylib.buf(ol)
+        rc = lib.crypto_pwhash_scryptsalsa208sha256_ll(pw8, sz(8), s32, sz(32), ctypes.c_uint64(1 << lg), ctypes.c_uint32(r_), ctypes.c_uint32(p_), out, sz(ol))
+        want = hashlib.scrypt(pw8, salt=s32, n=1 << lg, r=r_, p=p_, maxmem=1 << 30, dklen=ol)
+        if rc != 0 or out.raw != want:
+            d0 = next((i for i in range(ol) if out.raw[i] != want[i]), -1)
+            fails.append(("crypto_pwhash_scrypt_ll/%s/N=2^%d/r=%d/p=%d/outlen=%d" % (tag, lg, r_, p_, ol), "ret %d; first differing output byte %d" % (rc, d0)))
     out = pylib.buf(32)
     for N, r_, p_, name in ((0, 1, 1, "N=0"), (1, 1, 1, "N=1"), (3, 1, 1, "N=3"), (6, 1, 1, "N=6"), (1000, 1, 1, "N=1000"), (16, 0, 1, "r=0"), (16, 1, 0, "p=0"), (16, 1 << 15, 1 << 15, "r*p=2^30")):
         n += 1
